@@ -1,10 +1,10 @@
-\* all strings of length <= MaxLen over AlphabetNum
+\* catalogue lines: first, separator, second
 CONSTANTS
     Alphabet <- AlphabetNum
-    MaxLen = 5
+    MaxLen = 0
     TagHexFloats = TRUE
 INIT Init
-NEXT Next
+NEXT NextCat
 INVARIANT TypeOK
 INVARIANT StateIsRun
 INVARIANT Relex
